@@ -367,11 +367,15 @@ func forwardReturns(from ssa.Instruction, visit func(*ssa.Return)) {
 // ------------------------------------------------------------------- json / js
 
 func stackJSON(r *core.Run) {
-	fn := r.Prog.SSAFunc("json", "Parser", "Next")
 	ctor := r.Prog.SSAFunc("json", "", "NewParser")
 	pk := r.Prog.Pkg("json")
-	if fn == nil || ctor == nil || pk == nil {
-		r.BrokenAnchor("json.Parser.Next / json.NewParser")
+	if ctor == nil || pk == nil {
+		r.BrokenAnchor("json.NewParser")
+		return
+	}
+	field := jsonStackField(pk)
+	if field == "" {
+		r.BrokenAnchor("json.Parser field of type []State")
 		return
 	}
 	st := map[string]int64{}
@@ -379,54 +383,59 @@ func stackJSON(r *core.Run) {
 		st[n], _ = constant.Int64Val(constant.ToInt(c))
 	}
 	valueState := st["ValueState"]
-	// pushes never push ValueState; pops only when the local `state` (top) is a container state
-	npop := 0
-	for _, op := range stackOps(fn, "json.Parser", "state") {
-		switch op.kind {
-		case "push":
-			c, isC := op.val.(*ssa.Const)
-			r.Check(isC && c.Int64() != valueState, "json push is a container state", op.in.Pos(), "", "a pushed state is not a constant container state (the bottom ValueState must stay unique)")
-		case "pop":
-			npop++
-			// dominated by top-state test: state == ObjectKeyState / ArrayState (true edge) or != ... false
-			okGuard := false
-			for p := op.in.Block(); p != nil; p = p.Idom() {
-				d := p.Idom()
-				if d == nil {
-					break
+	// the top state is known to be a container state
+	topIsContainer := func(a condAtom, _ *ssa.Function) bool {
+		x, y := a.x, a.y
+		if _, isC := x.(*ssa.Const); isC {
+			x, y = y, x
+		}
+		k, ok := y.(*ssa.Const)
+		if !ok || !ssaIntConst(k) || a.op != token.EQL || !isTopOfStack(r, x, field, 0) {
+			return false
+		}
+		return k.Int64() == st["ObjectKeyState"] || k.Int64() == st["ArrayState"]
+	}
+	// pushes never push ValueState; pops only when the top is a container state (in any method of the parser)
+	npop, npush := 0, 0
+	for _, fn := range allModuleFuncs(r) {
+		if core.RelPkg(fnPkg(fn)) != "json" || fn == ctor {
+			continue
+		}
+		for _, op := range stackOps(fn, "json.Parser", field) {
+			switch op.kind {
+			case "push":
+				npush++
+				var vals []ssa.Value
+				if args, ok := argsOfParam(r, op.val); ok {
+					vals = args
+				} else {
+					vals = []ssa.Value{op.val}
 				}
-				iff, isIf := lastInstr(d).(*ssa.If)
-				if !isIf {
-					continue
+				good := len(vals) > 0
+				for _, v := range vals {
+					c, isC := v.(*ssa.Const)
+					if !isC || !ssaIntConst(c) || c.Int64() == valueState {
+						good = false
+					}
 				}
-				bo, isBo := iff.Cond.(*ssa.BinOp)
-				if !isBo {
-					continue
-				}
-				k, isK := bo.Y.(*ssa.Const)
-				if !isK || (k.Int64() != st["ObjectKeyState"] && k.Int64() != st["ArrayState"]) {
-					continue
-				}
-				// the compared value is the top of the stack loaded at entry
-				if !isTopLoad(bo.X) {
-					continue
-				}
-				if (bo.Op == token.EQL && d.Succs[0] == p) || (bo.Op == token.NEQ && d.Succs[1] == p) {
-					okGuard = true
-				}
+				r.Check(good, fmt.Sprintf("json push #%d is a container state", npush), op.in.Pos(), "", "a pushed state is not a constant container state (the bottom ValueState must stay unique)")
+			case "pop":
+				npop++
+				okGuard := holdsAt(r, op.in, topIsContainer, 0)
+				r.Check(okGuard, fmt.Sprintf("json pop #%d only under a container top state", npop), op.in.Pos(), "", "the stack is popped on a path that has not established that the top state is ObjectKeyState or ArrayState: a closing bracket could pop the bottom state (index out of range on the next call) or close a container of the other kind")
+			default:
+				r.Fail("json state stack rewritten", op.in.Pos(), "the container stack of json.Parser is assigned something other than append/pop")
 			}
-			r.Check(okGuard, fmt.Sprintf("json pop #%d only under a container top state", npop), op.in.Pos(), "", "the stack is popped on a path that has not established that the top state is ObjectKeyState or ArrayState: a closing bracket could pop the bottom state (index out of range on the next call) or close a container of the other kind")
-		default:
-			r.Fail("json state stack rewritten", op.in.Pos(), "json.Parser.state is assigned something other than append/pop")
 		}
 	}
-	r.Floor("json pops", npop, 2)
+	r.Floor("json pops", npop, 1)
+	r.Floor("json pushes", npush, 1)
 	// constructor installs exactly [ValueState]
 	okCtor := false
 	for _, b := range ctor.Blocks {
 		for _, in := range b.Instrs {
 			if s, isS := in.(*ssa.Store); isS {
-				if c, isC := s.Val.(*ssa.Const); isC && c.Int64() == valueState {
+				if c, isC := s.Val.(*ssa.Const); isC && ssaIntConst(c) && c.Int64() == valueState {
 					if _, isIA := s.Addr.(*ssa.IndexAddr); isIA {
 						okCtor = true
 					}
